@@ -2,7 +2,7 @@
    real engine was OBSERVED to do (corr/EngineCorr.v cases), plus the decidable
    well-formedness predicate of applications and the classifiers of recorded findings.
    Violation classes: 0 = not a recorded finding; k > 0 = see KNOWN_FINDINGS.json. *)
-From Vise Require Import Bytes Errors Consts EngConsts Codec CacheModel StateModel NavModel RenderModel VmModel EngineModel CorrBase EngineCorr.
+From Vise Require Import Bytes Errors Consts EngConsts Codec CacheModel StateModel NavModel NavSpec RenderModel VmModel EngineModel CorrBase EngineCorr.
 Local Open Scope N_scope.
 
 (* ---- well-formed applications (C08's quantifier) ----------------------------------------- *)
@@ -248,3 +248,210 @@ Definition c20_class (ec : ecase) : option N :=
   if c20_steps (ec_cfg ec) None (ec_pers ec) && c06_blocked None (ec_pers ec) then None
   else match c_first (ec_cfg ec) with Some _ => Some 1 | None => Some 0 end.
 Definition engine_violations_c20 (cs : list ecase) : list (N * N) := classify c20_class 0 cs.
+
+(* ---- ghost events: what the model (which the correspondence check ties to the code on the
+        same case) did inside each request ------------------------------------------------------------ *)
+Definition events_long (ec : ecase) : list (list ev) :=
+  map (fun t => snd (fst t))
+      (model_trace_long (app_rsrc (ec_app ec)) (ec_cfg ec) (new_engine (ec_cfg ec) None [] []) (map fst (ec_long ec))).
+Definition events_pers (ec : ecase) : list (list ev) :=
+  map (fun t => snd (fst t))
+      (model_trace_pers (app_rsrc (ec_app ec)) (ec_cfg ec) (mkPw None [] [] false) (map fst (ec_pers ec))).
+
+(* ---- C03: the first matching INCMP decides, once ----------------------------------------------------- *)
+Definition sel_matches (sel input : bytes) : bool := bytes_eqb sel input || bytes_eqb sel star.
+(* scan the INCMP events of one request in order.  st: 0 = nothing matched yet, 1 = one fired,
+   2 = a matching "previous" on the first page was turned into no-match (all later ones are skipped).
+   Result: 0 ok; 1 = a second INCMP with the SAME selector as the input fired (K-C03-dupsel);
+   2 = other violation *)
+Fixpoint c03_scan (input : bytes) (st : N) (es : list ev) : N :=
+  match es with
+  | [] => 0
+  | EvInCmp dest sel fired :: r =>
+    if st =? 0 then
+      if sel_matches sel input then
+        (if fired then c03_scan input 1 r
+         else if bytes_eqb dest t_prev then c03_scan input 2 r else 2)
+      else (if fired then 2 else c03_scan input 0 r)
+    else if st =? 1 then
+      (if fired then (if bytes_eqb sel input then 1 else 2) else c03_scan input 1 r)
+    else (if fired then 2 else c03_scan input 2 r)
+  | EvInstr op :: r => if op =? op_HALT then 0 else c03_scan input st r
+  | _ :: r => c03_scan input st r
+  end.
+Fixpoint c03_steps (steps : list (bytes * eobs)) (evs : list (list ev)) : N :=
+  match steps, evs with
+  | (i, _) :: steps', es :: evs' =>
+    let k := c03_scan i 0 es in
+    if k =? 0 then c03_steps steps' evs' else k
+  | _, _ => 0
+  end.
+
+(* observed only: resuming after a HALT with pending code that starts with INCMP lines, the
+   first code symbol the engine fetches is the node the first matching INCMP names *)
+Fixpoint leading_incmps (p : list instr) : list (bytes * bytes) * bool (* nothing but INCMPs *) :=
+  match p with
+  | [] => ([], true)
+  | IInCmp d s :: r => let '(l, e) := leading_incmps r in ((d, s) :: l, e)
+  | _ => ([], false)
+  end.
+Fixpoint first_match (input : bytes) (l : list (bytes * bytes)) : option bytes :=
+  match l with
+  | [] => None
+  | (d, s) :: r => if sel_matches s input then Some d else first_match input r
+  end.
+Definition expected_first_fetch (os : osnap) (input : bytes) : option bytes :=
+  if negb (oflag os FLAG_WAIT) || oflag os FLAG_TERMINATE then None else
+  match parse_all (os_code os) with
+  | Ok p =>
+    let '(l, only) := leading_incmps p in
+    match l with
+    | [] => None
+    | _ =>
+      match first_match input l with
+      | Some d =>
+        if valid_ctrl_b d then
+          (if bytes_eqb d t_up then (match rev (os_path os) with _ :: p :: _ => Some p | _ => None end)
+           else if bytes_eqb d t_top then (match os_path os with r :: _ :: _ => Some r | _ => None end)
+           else if bytes_eqb d t_prev then (if os_idx os =? 0 then (if only then Some catch_sym else None) else Some (last (os_path os) []))
+           else Some (last (os_path os) []))
+        else if bytes_eqb d (last (os_path os) []) then None else Some d
+      | None => if only then (if bytes_eqb (last (os_path os) []) catch_sym then None else Some catch_sym) else None
+      end
+    end
+  | _ => None
+  end.
+Definition first_code (calls : list ocall) : option bytes :=
+  let fix go l := match l with [] => None | OcCode s :: _ => Some s | _ :: r => go r end in go calls.
+Fixpoint c03_obs (c : config) (prev : option osnap) (steps : list (bytes * eobs)) : bool :=
+  match steps with
+  | [] => true
+  | (i, o) :: r =>
+    (match prev with
+     | Some os =>
+       if refused_b i || (c_reset_empty c && (len i =? 0)) || negb (is_ok_o (eo_exec o)) then true else
+       match expected_first_fetch os i with
+       | Some d => match first_code (eo_calls o) with Some s => bytes_eqb s d | None => false end
+       | None => true
+       end
+     | None => true
+     end) && c03_obs c (eo_snap o) r
+  end.
+Definition c03_class (ec : ecase) : option N :=
+  let a := c03_steps (ec_long ec) (events_long ec) in
+  let b := c03_steps (ec_pers ec) (events_pers ec) in
+  let obs := match c_first (ec_cfg ec) with
+             | Some _ => true
+             | None => c03_obs (ec_cfg ec) None (ec_long ec) && c03_obs (ec_cfg ec) None (ec_pers ec)
+             end in
+  if (a =? 2) || (b =? 2) || negb obs then Some 0
+  else if (a =? 1) || (b =? 1) then Some 1 else None.
+Definition engine_violations_c03 (cs : list ecase) : list (N * N) := classify c03_class 0 cs.
+
+(* ---- C04 (engine level): the position after each request is the fold of the move table over
+        the moves executed ------------------------------------------------------------------------------ *)
+Fixpoint moves_of (es : list ev) : list bytes :=
+  match es with
+  | [] => []
+  | EvMove _ t _ :: r => t :: moves_of r
+  | _ :: r => moves_of r
+  end.
+Definition pos_eqb_m (a b : list bytes * N) : bool := list_eqb bytes_eqb (fst a) (fst b) && (snd a =? snd b).
+(* a failed move (status not OK) is not logged; the fold uses nav_code *)
+Fixpoint c04_steps (c : config) (prev : list bytes * N) (steps : list (bytes * eobs)) (evs : list (list ev)) : bool :=
+  match steps, evs with
+  | (i, o) :: steps', es :: evs' =>
+    (* ResetOnEmptyInput: an empty input first unwinds the session to the empty position *)
+    let prev := if c_reset_empty c && (len i =? 0) then ([], 0) else prev in
+    match eo_snap o with
+    | Some os =>
+      let now := (os_path os, os_idx os) in
+      (* a graceful end or a forced reset unwinds to the empty position: not a move of the table *)
+      let unwound := match os_path os with [] => true | _ => false end in
+      (unwound || match nav_fold nav_code prev (moves_of es) with
+                  | Some p => pos_eqb_m p now
+                  | None => false
+                  end) && c04_steps c now steps' evs'
+    | None => true
+    end
+  | _, _ => true
+  end.
+(* the entry function of WithFirst pushes and pops "_first" outside the table: excluded *)
+Definition c04_class (ec : ecase) : option N :=
+  match c_first (ec_cfg ec) with
+  | Some _ => None
+  | None =>
+    if c04_steps (ec_cfg ec) ([], 0) (ec_long ec) (events_long ec) && c04_steps (ec_cfg ec) ([], 0) (ec_pers ec) (events_pers ec)
+    then None else Some 0
+  end.
+Definition engine_violations_c04 (cs : list ecase) : list (N * N) := classify c04_class 0 cs.
+
+(* ---- C05: every stored value respects its limit; scopes follow the stack ------------------------------ *)
+Definition c05_ok (ec : ecase) : bool :=
+  forallb (fun s => match eo_snap (snd s) with
+                    | Some os => snap_cache_ok os && (has_croak (ec_app ec) || snap_levels_ok os
+                                                      || match c_first (ec_cfg ec) with Some _ => true | None => false end)
+                    | None => true end) (both_steps ec).
+(* ghost: a LOAD calls its function only when the symbol is not visible: replay of the cache is
+   what the model does; here the observable consequence: within one request the same symbol's
+   function is not called twice by LOAD instructions without an ascent in between *)
+Fixpoint c05_scan (last_op : N) (loaded : list bytes) (es : list ev) : bool :=
+  match es with
+  | [] => true
+  | EvInstr op :: r => c05_scan op loaded r
+  | EvFunc s _ _ :: r =>
+    if last_op =? op_LOAD then negb (mem_bytes s loaded) && c05_scan last_op (s :: loaded) r
+    else c05_scan last_op loaded r
+  | EvMove _ t _ :: r =>
+    (* any ascent may end the scope of loaded symbols *)
+    if bytes_eqb t t_up || bytes_eqb t t_top then c05_scan last_op [] r else c05_scan last_op loaded r
+  | _ :: r => c05_scan last_op loaded r
+  end.
+Definition c05_class (ec : ecase) : option N :=
+  if c05_ok ec && forallb (c05_scan 0 []) (events_long ec) && forallb (c05_scan 0 []) (events_pers ec)
+  then None else Some 0.
+Definition engine_violations_c05 (cs : list ecase) : list (N * N) := classify c05_class 0 cs.
+
+(* ---- C18: the selected language reaches every lookup and survives the session ------------------------- *)
+(* observed: every template / menu-label lookup of a request carries the language the session
+   has after the request (lookups happen while rendering, after execution); the first
+   entry-function call of a request carries the language the session had before it; and a
+   language, once set, is never lost *)
+Definition call_lang (c : ocall) : option (option bytes) :=
+  match c with OcFunc _ l _ | OcTpl _ l | OcMenu _ l => Some l | _ => None end.
+Definition first_func_lang (calls : list ocall) : option (option bytes) :=
+  let fix go l := match l with [] => None | OcFunc _ lg _ :: _ => Some lg | _ :: r => go r end in go calls.
+(* 0 ok, 1 language lost (set before, none after), 2 other *)
+Fixpoint c18_steps (prev : option osnap) (steps : list (bytes * eobs)) : N :=
+  match steps with
+  | [] => 0
+  | (i, o) :: r =>
+    match eo_snap o with
+    | Some os =>
+      let lookups_ok := forallb (fun c => match c with
+                                          | OcTpl _ l | OcMenu _ l => obytes_eqb l (os_lang os)
+                                          | _ => true end) (eo_calls o) in
+      let first_ok := match prev, first_func_lang (eo_calls o) with
+                      | Some p, Some l => obytes_eqb l (os_lang p) || obytes_eqb l (os_lang os)
+                      | _, _ => true end in
+      let lost := match prev with
+                  | Some p => match os_lang p, os_lang os with Some _, None => true | _, _ => false end
+                  | None => false end in
+      if negb (lookups_ok && first_ok) then 2 else if lost then 1 else c18_steps (eo_snap o) r
+    | None => 0
+    end
+  end.
+(* class 1 = K-C18-emptylang: an entry function returns an empty result together with LANG *)
+Definition has_empty_lang (a : app) (c : config) : bool :=
+  existsb (fun f => existsb (fun fr => match fr_content fr with [] => negb (fr_echo fr) || true | _ => false end
+                                        && existsb (N.eqb FLAG_LANG) (fr_set fr)) (snd f)) (a_funcs a)
+  || match c_first c with
+     | Some s => existsb (fun fr => match fr_content fr with [] => true | _ => false end && existsb (N.eqb FLAG_LANG) (fr_set fr)) s
+     | None => false end.
+Definition c18_class (ec : ecase) : option N :=
+  let a := c18_steps None (ec_long ec) in
+  let b := c18_steps None (ec_pers ec) in
+  if (a =? 2) || (b =? 2) then Some 0
+  else if (a =? 1) || (b =? 1) then (if has_empty_lang (ec_app ec) (ec_cfg ec) then Some 1 else Some 0)
+  else None.
+Definition engine_violations_c18 (cs : list ecase) : list (N * N) := classify c18_class 0 cs.
